@@ -400,3 +400,39 @@ func init() {
 			return false, ""
 		})
 }
+
+// schedRepro enumerates all interleavings of the fixed configuration
+// "2 writers x 2 blocks each" and reports the first failure of one property's oracle.
+func schedRepro(prop string) (bool, string) {
+	p := fixedPrograms()["2 writers x 2 blocks each"]
+	enum := &dfsEnum{}
+	for {
+		enum.pos = 0
+		r := startConcRun(p, 1024)
+		r.S.Pick = enum.pick
+		ok := r.S.Run()
+		if !ok {
+			r.Close()
+			return true, r.S.Hang + r.S.Panic
+		}
+		fails, _, _ := checkWriterRun(r)
+		r.Close()
+		for _, f := range fails {
+			if f.Prop == prop {
+				return true, fmt.Sprintf("%s [schedule %s]", f.Msg, r.S.TraceString())
+			}
+		}
+		if !enum.next() {
+			return false, ""
+		}
+	}
+}
+
+func init() {
+	registerKF("f07-commit-id-before-latch", "C15,C08",
+		"the commit ID was drawn before the block latch: with two writers racing for a block the IDs did not increase in apply order",
+		func() (bool, string) { return schedRepro("C15") })
+	registerKF("f18-replay-applies-other-chunks", "C06",
+		"Replay of a cloned commit re-applied the transaction's other blocks: a replica regressed under interleaved multi-block writers",
+		func() (bool, string) { return schedRepro("C06") })
+}
